@@ -17,6 +17,7 @@ LSYMS = {
     "NLAU": ("named_list", ["A", "U"]),         # a batch with one defined and one never-defined layer
     "NLCG": ("named_list", ["C", "G"]),         # two regex layers, one of which matches no module
     "NG": ("named", "G"),
+    "AP": ("assert_applies",),                  # the layer rule is evaluated in the middle of the history (outcome ignored)
     "SH": ("should",), "SO": ("should_only",), "SN": ("should_not",),
     "AC": ("access_layers_that",), "BA": ("be_accessed_by_layers_that",),
     "ACX": ("access_layers_except_layers_that",), "BAX": ("be_accessed_by_layers_except_layers_that",),
@@ -36,6 +37,8 @@ def py_layer_spec(hist) -> bool:
     for s in hist:
         c = LSYMS[s]
         k = c[0]
+        if k == "assert_applies":
+            continue
         if k == "based_on":
             if arch:
                 return False
@@ -86,7 +89,7 @@ def ghost_in_effect(hist) -> bool:
                 subj = s
             elif side == "O":
                 obj = s
-        elif k not in ("based_on", "should", "should_only", "should_not"):
+        elif k not in ("based_on", "should", "should_only", "should_not", "assert_applies"):
             side = "O"
             if k.endswith("any_layer"):
                 anything = True
@@ -109,7 +112,8 @@ def run_layer_histories(ctx):
     chains = [["BO", "LT", "NA", "SH", "AC", "NB"], ["BO", "LT", "NA", "SN", "BAX", "NLAB"], ["BO", "LT", "NC", "SO", "AC", "NLB"],
               ["BO", "LT", "NA", "SN", "AA"], ["BO", "LT", "NB", "SN", "BAA"], ["BO", "LT", "NA", "SO", "ACX", "NC"],
               ["BO", "LT", "NA", "SH", "AC", "NLCG"], ["BO", "LT", "NG", "SN", "AC", "NB"],
-              ["BO", "LT", "NB", "SN", "AC", "NLAU"], ["BO", "LT", "NB", "SH", "BAX", "NLAU"]]
+              ["BO", "LT", "NB", "SN", "AC", "NLAU"], ["BO", "LT", "NB", "SH", "BAX", "NLAU"],
+              ["BO", "LT", "NA", "SN", "AC", "NB", "AP", "SH"], ["BO", "LT", "NA", "SH", "AC", "NB", "AP", "SN"], ["BO", "LT", "NA", "SN", "AA", "AP", "SO"]]
     for ch in chains:
         hists.append(tuple(ch))
         n = len(ch)
